@@ -1,33 +1,241 @@
 import DoviModel.Proofs.Split
+import DoviModel.Proofs.Hevc
 /-!
 # C05 — HEVC pass-through commands neither lose, alter nor reorder NAL units
 
-The chunked reader (`hevc_parser::HevcProcessor::process_io` / `parse_nalus`, model `Split.run`) yields the same
-NAL list as splitting the whole stream at once, for every chunking.
+Two layers.  (1) The chunked reader (`hevc_parser::HevcProcessor::process_io` / `parse_nalus`, model
+`Split.run`) yields the same NAL list as splitting the whole stream at once, for every chunking.  (2) On that
+NAL list, `DoviProcessor::write_nals` (model `Hevc.general`) routes every NAL to exactly one output with its
+bytes unchanged and in input order.  `./check C05` ties both models to the real CLI (chunk-size sweep; driver op
+`hevc.general`).  The RPU rewrite of the library is the parameter `conv`; the frame labels of hevc_parser are
+the field `Item.au` — the theorems hold for every value of both.
 -/
 namespace Dovi.C05
-open Dovi Dovi.Split
+open Dovi Dovi.Split Dovi.Hevc
 
 /-- any chunking of a stream (full chunks `cs`, then the final short read `l`) yields exactly the Annex-B
 split of the whole stream -/
 theorem chunked_split_eq_spec (cs : List Bytes) (l : Bytes) :
-    run [] cs l = (split (cs.flatten ++ l)).2 := by
+    Split.run [] cs l = (split (cs.flatten ++ l)).2 := by
   simpa using run_eq_split [] cs l
 
 /-- two chunkings of the same bytes give the same NAL list: the result does not depend on where the read
 boundaries fall, on the chunk size, or on NALs being larger than a chunk -/
 theorem chunking_irrelevant (cs cs' : List Bytes) (l l' : Bytes)
-    (h : cs.flatten ++ l = cs'.flatten ++ l') : run [] cs l = run [] cs' l' := by
+    (h : cs.flatten ++ l = cs'.flatten ++ l') : Split.run [] cs l = Split.run [] cs' l' := by
   rw [chunked_split_eq_spec, chunked_split_eq_spec, h]
 
 /-- piped stdin: whatever the fragmentation of the pipe writes, the reader accumulates them into some
 chunking of the same byte stream, hence the same NAL list as the file -/
 theorem stdin_fragmentation_irrelevant (frags : List Bytes) (cs : List Bytes) (l : Bytes)
-    (h : cs.flatten ++ l = frags.flatten) : run [] cs l = (split frags.flatten).2 := by
+    (h : cs.flatten ++ l = frags.flatten) : Split.run [] cs l = (split frags.flatten).2 := by
   rw [chunked_split_eq_spec, h]
 
 /-! non-vacuity: a start code straddling a chunk boundary -/
-example : run [] [[0x11, 0, 0], [1, 0x22, 0]] [0, 1, 0x33] = [[0x22], [0x33]] := by
-  simp [run, stepNonFinal, split, SC]
+example : Split.run [] [[0x11, 0, 0], [1, 0x22, 0]] [0, 1, 0x33] = [[0x22], [0x33]] := by
+  simp [Split.run, stepNonFinal, split, SC]
+
+/-! ## convert -/
+
+/-- **convert, completely**: the (type, bytes) sequence written is the input sequence — minus the EL NALs
+with --discard — in which every RPU is replaced by its library rewrite when a mode / edit config is set, and
+by nothing else; the command fails iff the library refuses one of them. -/
+theorem convert_payloads (c : Cfg) (conv : Bytes → Option Bytes) (items : List Item)
+    (hsl : c.sl = true) (hdrop : c.drop = false) :
+    (general c conv items).map (fun s => s.sl.map pay) =
+      optMap (slSpec c.convSet conv) (items.filter (fun it => ¬ (it.typ = NAL_UNSPEC63 ∧ c.discard = true))) :=
+  run_sl_spec c conv {} items hsl hdrop rfl
+
+/-- **No NAL lost, duplicated, reordered or altered** (without --discard): as many NALs out as in, the same
+type at every position, NAL `i` of the output is NAL `i` of the input or (an RPU under a mode) its library
+rewrite, and the sequences with the RPUs filtered out coincide. -/
+theorem convert_conserves (c : Cfg) (conv : Bytes → Option Bytes) (items : List Item) (s : Sinks)
+    (hsl : c.sl = true) (hdrop : c.drop = false) (hdis : c.discard = false)
+    (h : general c conv items = some s) :
+    s.sl.length = items.length ∧
+    (s.sl.map pay).map Prod.fst = items.map (·.typ) ∧
+    (∀ i (hi : i < items.length), slSpec c.convSet conv items[i] = (s.sl.map pay)[i]?) ∧
+    (s.sl.map pay).filter (fun x => x.1 ≠ NAL_UNSPEC62) = (items.map payI).filter (fun x => x.1 ≠ NAL_UNSPEC62) := by
+  have hs := convert_payloads c conv items hsl hdrop
+  rw [h] at hs
+  have e : (items.filter (fun it => ¬ (it.typ = NAL_UNSPEC63 ∧ c.discard = true))) = items := by
+    rw [List.filter_eq_self]; intro a _; simp [hdis]
+  rw [e] at hs
+  simp only [Option.map_some] at hs
+  have hs' := hs.symm
+  refine ⟨?_, slSpec_types _ _ _ _ hs', fun i hi => optMap_getElem _ _ _ hs' i hi, slSpec_filter _ _ _ _ hs'⟩
+  have := optMap_length _ _ _ hs'
+  simpa using this
+
+/-- convert fails exactly when a mode / edit config is set and the library refuses an RPU of the stream -/
+theorem convert_fails_iff (c : Cfg) (conv : Bytes → Option Bytes) (items : List Item)
+    (hsl : c.sl = true) (hdrop : c.drop = false) (hdis : c.discard = false) :
+    general c conv items = none ↔
+      ∃ it ∈ items, it.typ = NAL_UNSPEC62 ∧ c.convSet = true ∧ conv it.data = none := by
+  have hs := convert_payloads c conv items hsl hdrop
+  have e : (items.filter (fun it => ¬ (it.typ = NAL_UNSPEC63 ∧ c.discard = true))) = items := by
+    rw [List.filter_eq_self]; intro a _; simp [hdis]
+  rw [e] at hs
+  constructor
+  · intro hn
+    rw [hn] at hs
+    obtain ⟨it, hit, hf⟩ := (optMap_eq_none_iff _ _).mp hs.symm
+    refine ⟨it, hit, ?_⟩
+    unfold slSpec at hf
+    split at hf
+    · rename_i hc
+      refine ⟨hc.1, hc.2, ?_⟩
+      cases hcv : conv it.data with
+      | none => rfl
+      | some m => simp [hcv] at hf
+    · cases hf
+  · rintro ⟨it, hit, h62, hcs, hcv⟩
+    have : optMap (slSpec c.convSet conv) items = none :=
+      (optMap_eq_none_iff _ _).mpr ⟨it, hit, by simp [slSpec, h62, hcs, hcv]⟩
+    rw [this] at hs
+    cases hg : general c conv items with
+    | none => rfl
+    | some s => rw [hg] at hs; cases hs
+
+/-- **convert without a mode reproduces the whole NAL sequence**, for every stream and start-code preset -/
+theorem convert_without_mode_identity (conv : Bytes → Option Bytes) (items : List Item) (annexb : Bool) :
+    (general { cfgConvert with annexb := annexb } conv items).map (fun s => s.sl.map pay) = some (items.map payI) := by
+  have := convert_payloads { cfgConvert with annexb := annexb } conv items rfl rfl
+  rw [this]
+  have e : (List.filter (fun it => decide ¬(it.typ = NAL_UNSPEC63 ∧ ({ cfgConvert with annexb := annexb } : Cfg).discard = true)) items) = items := by
+    rw [List.filter_eq_self]; intro a _; simp [cfgConvert]
+  rw [e]
+  have : slSpec ({ cfgConvert with annexb := annexb } : Cfg).convSet conv = fun it => some (payI it) := by
+    funext it; simp [slSpec, cfgConvert]
+  rw [this, optMap_some]
+
+/-- **--discard drops only enhancement-layer NALs**: what is written is the input without its UNSPEC63 NALs,
+everything else unchanged and in order -/
+theorem discard_drops_only_el (conv : Bytes → Option Bytes) (items : List Item) (annexb : Bool) :
+    (general { cfgConvert with annexb := annexb, discard := true } conv items).map (fun s => s.sl.map pay) =
+      some ((items.filter (fun it => it.typ ≠ NAL_UNSPEC63)).map payI) := by
+  have := convert_payloads { cfgConvert with annexb := annexb, discard := true } conv items rfl rfl
+  rw [this]
+  have e : (List.filter (fun it => decide ¬(it.typ = NAL_UNSPEC63 ∧ ({ cfgConvert with annexb := annexb, discard := true } : Cfg).discard = true)) items)
+      = items.filter (fun it => it.typ ≠ NAL_UNSPEC63) := by
+    congr 1; funext it; simp
+  rw [e]
+  have : slSpec ({ cfgConvert with annexb := annexb, discard := true } : Cfg).convSet conv = fun it => some (payI it) := by
+    funext it; simp [slSpec, cfgConvert]
+  rw [this, optMap_some]
+
+/-! ## demux, remove -/
+
+theorem length_filter_isBl_isEl (items : List Item) :
+    (items.filter isBl).length + (items.filter isEl).length = items.length := by
+  induction items with
+  | nil => rfl
+  | cons it rest ih =>
+    have hb : isBl it = !isEl it := rfl
+    simp only [List.filter_cons, hb]
+    cases isEl it <;> simp <;> omega
+
+/-- **demux partitions the stream**: every input NAL lands in exactly one of the two files — the wrapped EL
+NALs (without their 2-byte UNSPEC63 header) and the RPUs (rewritten under a mode) in the EL file, everything
+else, itself, in the BL file — order preserved within each; for every stream in which the duplicate-RPU rule
+does not fire (`NoDupFrom`: implied by at most one RPU per access unit). -/
+theorem demux_partition (c : Cfg) (conv : Bytes → Option Bytes) (items : List Item) (s : Sinks)
+    (hsl : c.sl = false) (hdrop : c.drop = false) (hrpu : c.rpu = false) (hel : c.el = true) (hbl : c.bl = true)
+    (hnd : NoDupFrom 0 (rpuAus items)) (h : general c conv items = some s) :
+    s.bl.map pay = (items.filter isBl).map payI ∧
+    optMap (elSpec c.convSet conv) (items.filter isEl) = some (s.el.map pay) ∧
+    s.bl.length + s.el.length = items.length := by
+  have hb := run_bl_spec c conv {} items hsl hdrop hnd
+  have he := run_el_spec c conv {} items hsl hdrop hrpu hel hnd
+  rw [general] at h
+  rw [h] at hb he
+  simp only [Option.map_some, hbl, if_true] at hb he
+  have hb' : s.bl.map pay = (items.filter isBl).map payI := by
+    cases ho : optMap (fun it => rpuConv c.convSet conv it.data) (items.filter isRpu) with
+    | none => rw [ho] at hb; cases hb
+    | some x => rw [ho] at hb; simpa using hb
+  refine ⟨hb', he.symm, ?_⟩
+  have l1 : s.bl.length = (items.filter isBl).length := by
+    have := congrArg List.length hb'; simpa using this
+  have l2 : s.el.length = (items.filter isEl).length := by
+    have := optMap_length _ _ _ he.symm; simpa using this
+  rw [l1, l2, length_filter_isBl_isEl]
+
+/-- with --el-only the EL file is the same and nothing else is written -/
+theorem demux_el_only (conv : Bytes → Option Bytes) (items : List Item) (annexb convSet : Bool)
+    (hnd : NoDupFrom 0 (rpuAus items)) :
+    (general { cfgDemux true with annexb := annexb, convSet := convSet } conv items).map (fun s => (s.el.map pay, s.bl)) =
+      (optMap (elSpec convSet conv) (items.filter isEl)).map (fun e => (e, [])) := by
+  have he := run_el_spec { cfgDemux true with annexb := annexb, convSet := convSet } conv {} items rfl rfl rfl rfl hnd
+  have hb := run_bl_spec { cfgDemux true with annexb := annexb, convSet := convSet } conv {} items rfl rfl hnd
+  rw [general]
+  cases hr : run { cfgDemux true with annexb := annexb, convSet := convSet } conv {} items with
+  | none => rw [hr] at he; simp at he; rw [← he]; rfl
+  | some s =>
+    rw [hr] at he hb
+    simp only [Option.map_some] at he hb ⊢
+    rw [← he]
+    simp only [Option.map_some, Option.some.injEq, Prod.mk.injEq, true_and]
+    cases ho : optMap (fun it => rpuConv convSet conv it.data) (items.filter isRpu) with
+    | none => rw [ho] at hb; cases hb
+    | some x =>
+      rw [ho] at hb
+      simp only [Option.map_some, Option.some.injEq, cfgDemux] at hb
+      have : s.bl.map pay = [] := by simpa using hb
+      simpa using this
+
+/-- **remove equals the BL half of demux**, start codes included, for every stream and every option -/
+theorem remove_is_bl (conv : Bytes → Option Bytes) (items : List Item) (annexb convSet drop : Bool) :
+    (general { cfgRemove with annexb := annexb, convSet := convSet, drop := drop } conv items).map (·.bl) =
+    (general { cfgDemux false with annexb := annexb, convSet := convSet, drop := drop } conv items).map (·.bl) :=
+  run_bl_indep_el { cfgRemove with annexb := annexb, convSet := convSet, drop := drop } false true conv {} items
+
+/-! ## the read schedule below the NAL list -/
+
+/-- The single dependence of convert / demux / remove on the read schedule (found by the correspondence check):
+when the first read chunk holds only one start code, the first NAL of the stream is not recognised as such
+(`generalFrom true`).  Every output then still holds **the same NALs with the same bytes** — only the length of
+that NAL's start code under `--start-code annex-b` can differ (3 instead of 4 bytes when its type is not
+AUD / VPS / SPS / PPS / UNSPEC62). -/
+theorem late_first_nal_same_bytes (c : Cfg) (conv : Bytes → Option Bytes) (items : List Item) (late : Bool) :
+    (generalFrom late c conv items).map payS = (general c conv items).map payS :=
+  run_pay_indep c conv _ _ items rfl
+
+/-- … and with the default preset (4-byte start codes everywhere) or a four-sized first NAL, nothing differs:
+here for the preset -/
+example : (generalFrom true cfgConvert (fun _ => none) [⟨39, [0x4E, 1, 5, 1, 7, 0x80], 0⟩, ⟨19, [0x26, 1, 0xAA], 0⟩]) =
+    general cfgConvert (fun _ => none) [⟨39, [0x4E, 1, 5, 1, 7, 0x80], 0⟩, ⟨19, [0x26, 1, 0xAA], 0⟩] := by decide
+
+/-- the difference, when there is one -/
+example : ((generalFrom true { cfgConvert with annexb := true } (fun _ => none) [⟨39, [0x4E, 1, 5, 1, 7, 0x80], 0⟩]).map (fun s => s.sl.map (·.sc)),
+           (general { cfgConvert with annexb := true } (fun _ => none) [⟨39, [0x4E, 1, 5, 1, 7, 0x80], 0⟩]).map (fun s => s.sl.map (·.sc)))
+    = (some [3], some [4]) := by decide
+
+/-! ## non-vacuity: one stream through the three commands -/
+
+def exItems : List Item :=
+  [⟨35, [0x46, 1, 0x10], 0⟩, ⟨32, [0x40, 1, 0x0C], 0⟩, ⟨19, [0x26, 1, 0xAA], 0⟩, ⟨63, [0x7E, 1, 0x26, 0x01, 0xAB], 0⟩,
+   ⟨62, [0x7C, 1, 0x19, 0xA0], 0⟩, ⟨1, [0x02, 1, 0xBB], 1⟩, ⟨63, [0x7E, 1, 0x02], 1⟩, ⟨62, [0x7C, 1, 0x19, 0xA1], 1⟩,
+   ⟨36, [0x48, 1], 1⟩]
+
+/-- a "library" that rewrites the first RPU and refuses the second -/
+def exConv : Bytes → Option Bytes := fun d => if d = [0x7C, 1, 0x19, 0xA0] then some [0x7C, 1, 0x19, 0xFF] else none
+
+example : NoDupFrom 0 (rpuAus exItems) := by decide
+
+example : (general (cfgDemux false) exConv exItems).map (fun s => (s.bl.map pay, s.el.map pay)) = some
+    ([(35, [0x46, 1, 0x10]), (32, [0x40, 1, 0x0C]), (19, [0x26, 1, 0xAA]), (1, [0x02, 1, 0xBB]), (36, [0x48, 1])],
+     [(19, [0x26, 0x01, 0xAB]), (62, [0x7C, 1, 0x19, 0xA0]), (1, [0x02]), (62, [0x7C, 1, 0x19, 0xA1])]) := by decide
+
+/-- with a mode the command fails as soon as the library refuses an RPU … -/
+example : general { cfgConvert with convSet := true } exConv exItems = none := by decide
+/-- … and otherwise only the RPU payload differs -/
+example : (general { cfgConvert with convSet := true } exConv (exItems.take 6)).map (fun s => s.sl.map pay) = some
+    [(35, [0x46, 1, 0x10]), (32, [0x40, 1, 0x0C]), (19, [0x26, 1, 0xAA]), (63, [0x7E, 1, 0x26, 0x01, 0xAB]),
+     (62, [0x7C, 1, 0x19, 0xFF]), (1, [0x02, 1, 0xBB])] := by decide
+
+/-- start codes of `--start-code annex-b`: 4 bytes for AUD / parameter sets / RPU and the first NAL of a frame -/
+example : (general { cfgConvert with annexb := true } exConv exItems).map (fun s => s.sl.map (·.sc)) =
+    some [4, 4, 3, 3, 4, 4, 3, 4, 3] := by decide
 
 end Dovi.C05
